@@ -1,7 +1,7 @@
 (* C11 - Region algebra behaves as set algebra on pixels.
    Only property theorems here, each closed by [exact] of a lemma proved elsewhere. *)
 From LV Require Import Region.RegionDefs Gen.Funs_C11 Region.RegionProofs0 Region.RegionProofs Region.RegionIter
-     Region.RegionBBox.
+     Region.RegionBBox Region.RegionIterMachine.
 Local Open Scope Z_scope.
 
 (* Scope of every theorem below: coordinates are mathematical integers (Z).  The C code computes in
@@ -91,10 +91,26 @@ Theorem C11_create_offset_wf : forall x1 y1 x2 y2 r dx dy,
   (x1 < x2 -> y1 < y2 -> WF (rgn_create_rect x1 y1 x2 y2)) /\ (WF r -> WF (rgn_offset r dx dy)).
 Proof. exact (fun x1 y1 x2 y2 r dx dy => conj (create_rect_wf x1 y1 x2 y2) (offset_wf r dx dy)). Qed.
 
-(* iteration.  [rgn_iter] is the SPECIFICATION of the rectangle sequence (band by band, span by span,
-   each level reversed on request); the C iterator is a small stack machine over the same lists
-   (sraRgnIteratorNext), which is compared with [rgn_iter] case by case by the correspondence check
-   and has no mirror of its own.  The theorems say what that specified sequence guarantees.
+(* iteration.  [iter_next] mirrors one call of sraRgnIteratorNext (the two-level cursor machine of the
+   C code as a zipper: bands still to come / current band with the spans still to come; entering a band
+   from the requested end; popping when its spans are used up); [rgn_iter] is the specification of the
+   whole rectangle sequence.  C11_iterator_machine: for every region whose bands are non-empty (every
+   well-formed one) repeated calls yield exactly the specified sequence and then end.  The extracted
+   driver runs the machine, so the correspondence check compares the machine with the C iterator. *)
+Theorem C11_iterator_machine : forall revX revY r, WF r ->
+  rgn_iter_machine revX revY r = Some (rgn_iter revX revY r).
+Proof. exact iter_machine_wf. Qed.
+
+Example C11_iterator_machine_nonvacuous :
+  rgn_iter_machine true false (rgn_or (rgn_create_rect 0 0 10 4) (rgn_create_rect 2 4 3 9)) =
+  Some [(0, 0, 10, 4); (2, 4, 3, 9)] /\
+  rgn_iter_machine false true (rgn_or (rgn_create_rect 0 0 4 4) (rgn_create_rect 6 0 9 4)) =
+  Some [(0, 0, 4, 4); (6, 0, 9, 4)] /\
+  rgn_iter_machine true true (rgn_or (rgn_create_rect 0 0 4 4) (rgn_create_rect 6 0 9 4)) =
+  Some [(6, 0, 9, 4); (0, 0, 4, 4)].
+Proof. repeat split; reflexivity. Qed.
+
+(* what the specified sequence guarantees.
    Iteration in any of the four directions: every pixel of the region lies in exactly one
    of the iterated rectangles and every other pixel in none (pairwise disjoint, union = region);
    every rectangle is non-empty *)
